@@ -1,28 +1,28 @@
-\* C06 behaviour generation: 2 nodes, no tombstone collection, T = 1, gated workers with channel
-\* capacity 2 on both nodes.
+\* C04 behaviour generation with state-change locks: 3 nodes, one partition-ring key (partitions 1 and 3 lockable, owner 2), T = 2;
+\* about a third of the behaviours start with the lock script (delayed lock update vs. tombstone). Replayed on the partition domain only.
 CONSTANTS
-  N = 2
-  NI = 2
-  NK = 2
-  MaxClock = 3
-  Retention = 0
-  T = 1
+  N = 3
+  NI = 3
+  NK = 1
+  MaxClock = 6
+  Retention = 2
+  T = 2
   MaxCas = 8
-  MaxFaults = 4
+  MaxFaults = 2
   LiveStates = {"ACTIVE", "LEAVING", "PENDING"}
-  WatchNodes = {1, 2}
-  HoldNodes = {1, 2}
+  WatchNodes = {1, 2, 3}
+  HoldNodes = {1}
   AllowRestart = TRUE
   AllowGarbage = TRUE
-  AllowPartition = TRUE
-  AllowJunkPP = TRUE
-  GateNodes = {1, 2}
-  InboxCap = 2
+  AllowPartition = FALSE
+  AllowJunkPP = FALSE
+  GateNodes = {}
+  InboxCap = 1
   VersionTest = TRUE
   KeyTest = TRUE
   MaxDel = 0
-  ObsoleteTimeout = 1
-  LockKeys = {}
+  ObsoleteTimeout = 2
+  LockKeys = {1}
   ConsumeNet = FALSE
   Ideal = TRUE
   Ghost = TRUE
